@@ -17,7 +17,7 @@
 From Coq Require Import List ZArith Bool Lia.
 From LMBase Require Import Res.
 From LMDense Require Import DenseModel C19.
-From LMFootprint Require Import FpModel FpProofs FpTight FpHistory FpHistoryProofs FpComplete.
+From LMFootprint Require Import FpModel FpProofs FpTight FpNeon FpNeonProofs FpHistory FpHistoryProofs FpComplete.
 Import ListNotations.
 Open Scope Z_scope.
 
@@ -271,6 +271,71 @@ Theorem fp_sample_safe : forall C st L,
   Forall (Safe (ext_dense 1 st (sample_rows C L)) balign_dense) (fp_sample C st L).
 Proof. exact FpProofs.fp_sample_safe. Qed.
 
+(* ---------- NEON kernels (neon.rs; not compiled on x86_64: source tie only, no sanitizer run) ---------- *)
+
+Theorem fp_encode_into_neon_safe : forall L Ld accs,
+  0 <= L -> wrap_encode fp_encode_into_neon L Ld = Ok (Entered accs) ->
+  Forall (InBounds (ext_encode L Ld)) accs /\ Forall (Aligned balign_slices) accs.
+Proof.
+  intros L Ld accs HL H.
+  pose proof (wrap_encode_safe fp_encode_into_neon L Ld accs
+                (fun L HL => fp_encode_simd_safe 64 true L ltac:(lia) HL) HL H) as S.
+  split; [exact (safe_in_bounds _ _ _ S) | exact (safe_aligned _ _ _ S)].
+Qed.
+
+(* WITH the row-range guard of the x86 wrappers (ranged = true: three lines neon.rs does not have)
+   the NEON scoring kernels are safe *)
+Theorem fp_score_f32_neon_ranged_safe : forall C p accs,
+  sp_nonneg p -> layout16_ok 1 C (psst p) -> layout16_ok 4 (pK p) (ppst p) -> layout16_ok 4 C (pdst p) ->
+  wrap_score_f32_neon true C p = Ok (Entered accs) ->
+  Forall (InBounds (ext_score 4 p)) accs /\ Forall (Aligned balign_mat16) accs.
+Proof.
+  intros C p accs H1 H2 H3 H4 H5. pose proof (wrap_score_f32_neon_ranged_safe C p accs H1 H2 H3 H4 H5) as S.
+  split; [exact (safe_in_bounds _ _ _ S) | exact (safe_aligned _ _ _ S)].
+Qed.
+
+Theorem fp_score_u8_neon_ranged_safe : forall C p accs,
+  sp_nonneg p -> layout16_ok 1 C (psst p) -> layout16_ok 1 (pK p) (ppst p) -> layout16_ok 1 C (pdst p) ->
+  wrap_score_u8_neon true C p = Ok (Entered accs) ->
+  Forall (InBounds (ext_score 1 p)) accs /\ Forall (Aligned balign_mat16) accs.
+Proof.
+  intros C p accs H1 H2 H3 H4 H5. pose proof (wrap_score_u8_neon_ranged_safe C p accs H1 H2 H3 H4 H5) as S.
+  split; [exact (safe_in_bounds _ _ _ S) | exact (safe_aligned _ _ _ S)].
+Qed.
+
+(* FINDING (F26): Neon::score_f32_rows_into / score_u8_rows_into only have the wrap check and the early
+   return (ranged = false).  The full-strength statement — the statements above with `false` — is FALSE:
+   every call these wrappers let through whose row range reaches past the matrix loads 16 bytes beyond
+   the sequence matrix (the defect F09 repaired for AVX2/SSE2 in commit 38882ad, still present here). *)
+Theorem fp_score_neon_unguarded_refuted : forall C p accs,
+  sp_nonneg p -> 16 <= C -> 16 <= psst p -> pSR p < pb p + pM p - 1 ->
+  (wrap_score_f32_neon false C p = Ok (Entered accs) -> exists a, In a accs /\ ~ InBounds (ext_score 4 p) a) /\
+  (wrap_score_u8_neon false C p = Ok (Entered accs) -> exists a, In a accs /\ ~ InBounds (ext_score 1 p) a).
+Proof. exact neon_unranged_oob. Qed.
+
+(* a reachable instance: 64 symbols striped in 16 columns (4 rows), configure_wrap(2) (6 rows), a motif of
+   3 rows, score_rows_into(.., 0..6, ..): the load of matrix row 6 starts at the end of the 96-byte matrix *)
+Theorem fp_score_neon_witness_refuted :
+  sp_nonneg neon_rows_witness /\
+  layout16_ok 1 16 (psst neon_rows_witness) /\ layout16_ok 4 5 (ppst neon_rows_witness) /\
+  layout16_ok 4 16 (pdst neon_rows_witness) /\
+  exists accs a,
+    wrap_score_f32_neon false 16 neon_rows_witness = Ok (Entered accs) /\
+    In a accs /\ ~ InBounds (ext_score 4 neon_rows_witness) a /\ a = rd B_SRC 96 16 1.
+Proof.
+  split; [unfold sp_nonneg, neon_rows_witness; simpl; lia|].
+  split; [unfold layout16_ok, neon_rows_witness; simpl; repeat split; lia|].
+  split; [unfold layout16_ok, neon_rows_witness; simpl; repeat split; lia|].
+  split; [unfold layout16_ok, neon_rows_witness; simpl; repeat split; lia|].
+  exists (fp_score_f32_neon 16 neon_rows_witness), (rd B_SRC 96 16 1).
+  split; [vm_compute; reflexivity|].
+  assert (H : first_bad (ext_score 4 neon_rows_witness) balign_mat16
+                (fp_score_f32_neon 16 neon_rows_witness) = Some (rd B_SRC 96 16 1))
+    by (vm_compute; reflexivity).
+  destruct (bad_access_out_of_bounds _ _ _ _ H ltac:(vm_compute; reflexivity)) as [H1 H2].
+  auto.
+Qed.
+
 (* ---------- the guards are necessary, not only sufficient ---------- *)
 
 (* whenever the row-range guard of the AVX2 f32 / u8 wrappers fires, the kernel entered without
@@ -419,3 +484,7 @@ Check C06_model_passes_partial : forall K pstF pstU ops s,
   layout_ok 4 K pstF -> layout_ok 1 K pstU ->
   hwf s -> Forall hop_wf ops ->
   Forall (fun e => check_C06 (ev_ext e) (ev_al e) (ev_accs e) = true) (htrace K pstF pstU s ops).
+Check fp_score_neon_unguarded_refuted : forall C p accs,
+  sp_nonneg p -> 16 <= C -> 16 <= psst p -> pSR p < pb p + pM p - 1 ->
+  (wrap_score_f32_neon false C p = Ok (Entered accs) -> exists a, In a accs /\ ~ InBounds (ext_score 4 p) a) /\
+  (wrap_score_u8_neon false C p = Ok (Entered accs) -> exists a, In a accs /\ ~ InBounds (ext_score 1 p) a).
